@@ -12,31 +12,48 @@ ERR_TOO_SMALL = 3
 
 
 def imin(a, b):
-    return Ite(app("<=", a, b), a, b)
+    from vk.ec import ite_s
+    return ite_s(app("<=", a, b), a, b)
 
 
 def sat_bits(size, off, ln):
     """min(len, max(0, 8*size - off))"""
-    tail = Ite(app(">=", app("*", "8", size), off), app("-", app("*", "8", size), off), "0")
+    from vk.ec import ite_s, simp_int
+    # len <= 8*size - off  <=>  off + len <= 8*size   (decided at once when the buffer is known to be long enough)
+    fits = simp_int(app("<=", app("+", off, ln), app("*", "8", size)))
+    if fits == "true":
+        return ln
+    tail = ite_s(app(">=", app("*", "8", size), off), app("-", app("*", "8", size), off), "0")
     return imin(ln, tail)
 
 
 def zx_read(mem: Mem, size: str, abs_off: str, n: str, width: int) -> str:
     """BV(width): bit i = (i < n and off+i < 8*size) ? bit(mem, off+i) : 0   (n <= width <= 64), as one expression:
     assemble width/8+1 guarded bytes, shift right by off mod 8, mask to min(n, available) bits."""
+    from vk.ec import divmod8, _fold
     nb = width // 8 + 1
-    q = f"(div {abs_off} 8)"
+    q, r = divmod8(abs_off)
     bytes_ = []
     for i in range(nb):
-        idx = q if i == 0 else f"(+ {q} {i})"
-        bytes_.append(Ite(app("<", idx, size), mem.read(idx), "#x00"))
+        idx = q if i == 0 else _fold(f"(+ {q} {i})")
+        from vk.ec import ite_s
+        bytes_.append(ite_s(app("<", idx, size), mem.read(idx), "#x00"))
     wide = "(concat " + " ".join(reversed(bytes_)) + ")"
     W = 8 * nb
-    sh = f"(bvlshr {wide} ((_ int2bv {W}) (mod {abs_off} 8)))"
+    sh = f"(bvlshr {wide} {bvlit(r, W)})" if r is not None else f"(bvlshr {wide} ((_ int2bv {W}) (mod {abs_off} 8)))"
     low = f"((_ extract {width - 1} 0) {sh})"
     avail = sat_bits(size, abs_off, n)
-    mask = f"(bvsub (bvshl {bvlit(1, width + 1)} ((_ int2bv {width + 1}) {avail})) {bvlit(1, width + 1)})"
-    return f"(bvand {low} ((_ extract {width - 1} 0) {mask}))"
+    k = None
+    try:
+        k = int(avail)
+    except ValueError:
+        pass
+    if k is not None:
+        return f"(bvand {low} {bvlit((1 << k) - 1, width)})"
+    # mask bit i is set iff i < avail: integer comparisons against literals only (no int2bv of a symbolic integer)
+    bits = [Ite(app("<", str(i), avail), "#b1", "#b0") for i in range(width - 1, -1, -1)]
+    mask = bits[0] if width == 1 else "(concat " + " ".join(bits) + ")"
+    return f"(bvand {low} {mask})"
 
 
 def sign_extend_from(v: str, n: str, width: int) -> str:
@@ -120,8 +137,8 @@ def get_bits():
         ln, off, size = cx.i("len_bits"), cx.i("off_bits"), cx.i("buf_size_bytes")
         return [
             "true" if out.region != buf.region else "false",
-            Eq(out.off, "0"), Eq(buf.off, "0"),
-            app("<=", size, cx.length("buf")),
+            Eq(out.off, "0"), app("<=", "0", buf.off),
+            app("<=", app("+", buf.off, size), cx.length("buf")),
             app("<", app("+", off, ln, "8"), TWO64),
             app("<=", app("div", app("+", ln, "7"), "8"), cx.length("output")),
         ]
@@ -132,7 +149,7 @@ def get_bits():
         sb = sat_bits(size, off, ln)
         # bytes [0, ceil(len/8)) hold the zero-extended fragment, nothing else is written
         zeroed = MemsetMem(cx.mem("output"), "0", app("div", app("+", ln, "7"), "8"), "#x00")
-        return {"mem": {out.region: CopyBitsMem(zeroed, "0", sb, cx.mem("buf"), off)}}
+        return {"mem": {out.region: CopyBitsMem(zeroed, "0", sb, cx.mem("buf"), cx.abs_bit("buf", off))}}
 
     return CContract("nunavutGetBits", requires, ensures)
 
@@ -140,7 +157,7 @@ def get_bits():
 def _set_requires(cx, lenexpr):
     buf = cx.ptr("buf")
     size, off = cx.i("buf_size_bytes"), cx.i("off_bits")
-    return [Eq(buf.off, "0"), app("<=", size, cx.length("buf")), app("<", app("*", "8", size), TWO64),
+    return [app("<=", "0", buf.off), app("<=", app("+", buf.off, size), cx.length("buf")), app("<", app("*", "8", size), TWO64),
             app("<", app("+", off, lenexpr, "8"), TWO64)]
 
 
@@ -150,7 +167,7 @@ def set_bit():
         size, off = cx.i("buf_size_bytes"), cx.i("off_bits")
         too_small = app("<=", app("*", "8", size), off)
         one = ConstMem(Ite(cx.ex.nonzero(cx.args["value"]), "#x01", "#x00"))
-        spec = CopyBitsMem(cx.mem("buf"), off, Ite(too_small, "0", "1"), one, "0")
+        spec = CopyBitsMem(cx.mem("buf"), cx.abs_bit("buf", off), Ite(too_small, "0", "1"), one, "0")
         return {"result": ("B", Ite(too_small, bvlit(-ERR_TOO_SMALL, 8), bvlit(0, 8))), "mem": {buf.region: spec}}
 
     return CContract("nunavutSetBit", lambda cx: _set_requires(cx, "1"), ensures)
@@ -175,7 +192,7 @@ def set_uxx(name="nunavutSetUxx", signed=False):
         size, off, ln = cx.i("buf_size_bytes"), cx.i("off_bits"), cx.i("len_bits")
         too_small = app("<", app("*", "8", size), app("+", off, ln))
         n = Ite(too_small, "0", imin(ln, "64"))
-        spec = CopyBitsMem(cx.mem("buf"), off, n, value_mem(cx.b("value")), "0")
+        spec = CopyBitsMem(cx.mem("buf"), cx.abs_bit("buf", off), n, value_mem(cx.b("value")), "0")
         return {"result": ("B", Ite(too_small, bvlit(-ERR_TOO_SMALL, 8), bvlit(0, 8))), "mem": {buf.region: spec}}
 
     return CContract(name, lambda cx: _set_requires(cx, cx.i("len_bits")), ensures, param_rep={"value": "B"})
@@ -184,14 +201,22 @@ def set_uxx(name="nunavutSetUxx", signed=False):
 def _get_requires(cx, lenexpr):
     buf = cx.ptr("buf")
     size, off = cx.i("buf_size_bytes"), cx.i("off_bits")
-    return [Eq(buf.off, "0"), app("<=", size, cx.length("buf")), app("<", app("*", "8", size), TWO64),
+    return [app("<=", "0", buf.off), app("<=", app("+", buf.off, size), cx.length("buf")), app("<", app("*", "8", size), TWO64),
             app("<", app("+", off, "80"), TWO64)]
+
+
+def _zx(cx, n, width):
+    """zero-extending read relative to the pointer `buf` (which may point into the middle of its region)"""
+    buf = cx.ptr("buf")
+    size, off = cx.i("buf_size_bytes"), cx.i("off_bits")
+    lim = size if buf.off == "0" else app("+", buf.off, size)
+    return zx_read(cx.mem("buf"), lim, cx.abs_bit("buf", off), n, width)
 
 
 def get_u(width: int):
     def ensures(cx):
         size, off, ln = cx.i("buf_size_bytes"), cx.i("off_bits"), cx.i("len_bits")
-        return {"result": ("B", zx_read(cx.mem("buf"), size, off, imin(ln, str(width)), width))}
+        return {"result": ("B", _zx(cx, imin(ln, str(width)), width))}
 
     return CContract(f"nunavutGetU{width}", lambda cx: _get_requires(cx, None), ensures)
 
@@ -199,7 +224,7 @@ def get_u(width: int):
 def get_bit():
     def ensures(cx):
         size, off = cx.i("buf_size_bytes"), cx.i("off_bits")
-        bit = zx_read(cx.mem("buf"), size, off, "1", 8)
+        bit = _zx(cx, "1", 8)
         return {"result": ("I", Ite(Eq(bit, "#x01"), "1", "0"))}
 
     return CContract("nunavutGetBit", lambda cx: _get_requires(cx, None), ensures)
@@ -209,7 +234,7 @@ def get_i(width: int):
     def ensures(cx):
         size, off, ln = cx.i("buf_size_bytes"), cx.i("off_bits"), cx.i("len_bits")
         n = cx.known(imin(ln, str(width)))  # a literal on paths where the code's case split has fixed it
-        u = zx_read(cx.mem("buf"), size, off, n, width)
+        u = _zx(cx, n, width)
         return {"result": ("B", sign_extend_from(u, n, width))}
 
     return CContract(f"nunavutGetI{width}", lambda cx: _get_requires(cx, None), ensures)
@@ -286,7 +311,7 @@ def set_f(name: str, width: int):
             v64 = f"((_ zero_extend 32) {cx.fbits('value')})"
         else:
             v64 = cx.fbits("value")
-        spec = CopyBitsMem(cx.mem("buf"), off, Ite(too_small, "0", str(width)), value_mem(v64), "0")
+        spec = CopyBitsMem(cx.mem("buf"), cx.abs_bit("buf", off), Ite(too_small, "0", str(width)), value_mem(v64), "0")
         return {"result": ("B", Ite(too_small, bvlit(-ERR_TOO_SMALL, 8), bvlit(0, 8))), "mem": {buf.region: spec}}
 
     return CContract(name, lambda cx: _set_requires(cx, str(width)), ensures)
@@ -295,7 +320,7 @@ def set_f(name: str, width: int):
 def get_f(name: str, width: int):
     def ensures(cx):
         size, off = cx.i("buf_size_bytes"), cx.i("off_bits")
-        raw = zx_read(cx.mem("buf"), size, off, str(width), width)
+        raw = _zx(cx, str(width), width)
         if width == 16:
             def extra(cx2):
                 r = cx2.result
